@@ -76,6 +76,49 @@ EntropyOK == (Rec.op = "entropy" /\ Has("vals")) =>
     \A j \in 1..Len(Rec.regions) :
         Rec.vals[j] = Entropy(S0, {Rec.regions[j][i] : i \in 1..Len(Rec.regions[j])})
 
+\* ---- C05 / C02 / C03 / C14 on states: one public state-changing call per entry, applied to a
+\* fresh copy of pre (op "steps") or to the live object of the previous entry (op "walk")
+GateMap(name) == CASE name = "H" -> GateH [] name = "S" -> GateS [] name = "X" -> GateX [] name = "Y" -> GateY
+                   [] name = "Z" -> GateZ [] name = "CNOT" -> GateCNOT [] name = "CNOTrev" -> GateCNOTrev
+ImageGroup(S0, mm, qs, n) == IF Len(qs) = n THEN {Apply(mm, s) : s \in S0} ELSE {ApplyMasked(mm, qs, s) : s \in S0}
+\* post-selection of (-1)^b P on a pure state: <<post group, 2*prob>>
+SemPostselect(S0, P, b) ==
+    LET Oo == IF b = 1 THEN Neg(P) ELSE P IN
+    IF Oo \in S0 THEN <<S0, 2>> ELSE IF Neg(Oo) \in S0 THEN <<S0, 0>>
+    ELSE LET C == {s \in S0 : ~Anti(s, P)} IN <<C \cup {Mul(s, Oo) : s \in C}, 1>>
+StepSemOK(S0, r0, e, n) ==
+    CASE e.kind = "rot" -> TGrp(e.post) = RotGroup(Dec(e.g), S0) /\ e.post.r = r0
+      [] e.kind = "rotm" -> TGrp(e.post) = {RotMasked(Dec(e.g), e.qs, s) : s \in S0} /\ e.post.r = r0
+      [] e.kind = "tf" -> TGrp(e.post) = ImageGroup(S0, DecM(e.m), e.qs, n) /\ e.post.r = r0
+      [] e.kind = "gate" -> TGrp(e.post) = ImageGroup(S0, GateMap(e.name), e.qs, n) /\ e.post.r = r0
+      [] e.kind = "copy" -> e.post = e.orig /\ e.disjoint = TRUE
+      [] e.kind = "measure" ->
+           LET sem == SemMeasureList(S0, DecL(e.obs), e.out, Len(e.obs)) IN
+           /\ sem.ok /\ e.l2p = 0 - sem.nund /\ TGrp(e.post) = sem.S
+           /\ ("want" \in DOMAIN e) => e.out = e.want      \* the outcome TLC chose can be reached by some coin schedule
+      [] e.kind = "postselect" ->
+           LET sem == SemPostselect(S0, Dec(e.p), e.b) IN
+           TGrp(e.post) = sem[1] /\ DyEq(e.prob, sem[2], 1) /\ e.post.r = r0
+      [] e.kind = "set_r" -> e.post.r = e.r /\ e.post.rows = e.rows0
+      [] OTHER -> FALSE
+StepOK(S0, r0, e, n) == TOK(e.post) /\ StepSemOK(S0, r0, e, n)
+\* one clause per kind of call, so that a rejection names the operation
+KindOK(kinds) == (Rec.op = "steps" /\ Has("entries")) =>
+    LET S0 == TGrp(Rec.pre)  n == Len(Rec.pre.rows) \div 2 IN
+    \A j \in 1..Len(Rec.entries) : Rec.entries[j].kind \in kinds => StepSemOK(S0, Rec.pre.r, Rec.entries[j], n)
+StepsValid == (Rec.op \in {"steps", "walk"} /\ Has("entries")) => \A j \in 1..Len(Rec.entries) : TOK(Rec.entries[j].post)
+StepsRotOK == KindOK({"rot", "rotm"})
+StepsTransformOK == KindOK({"tf"})
+StepsGateOK == KindOK({"gate"})
+StepsMeasureOK == KindOK({"measure"})
+StepsPostselectOK == KindOK({"postselect"})
+StepsCopyOK == KindOK({"copy", "set_r"})
+\* a history on one live object: entry j starts from the post-state of entry j-1
+RECURSIVE WalkFrom(_, _, _, _)
+WalkFrom(t, es, j, n) == IF j > Len(es) THEN TRUE
+    ELSE StepOK(TGrp(t), t.r, es[j], n) /\ WalkFrom(es[j].post, es, j + 1, n)
+WalkOK == (Rec.op = "walk" /\ Has("entries")) => WalkFrom(Rec.pre, Rec.entries, 1, Len(Rec.pre.rows) \div 2)
+
 \* ---- C12: constructors and state <-> map duality
 CtorGroup(name, n) == CASE name = "zero" -> ZeroGroup(n) [] name = "one" -> OneGroup(n)
                         [] name = "ghz" -> GHZGroup(n) [] name = "mixed" -> MixedGroup(n)
